@@ -55,6 +55,14 @@ def slow_then_raise(seconds):
     raise RuntimeError("late")
 
 
+def compare_slow(seconds):
+    import c32_dependency
+    value = c32_dependency.Slow(seconds)
+    while True:
+        if value == 0:
+            return 1
+
+
 def classify(x):
     if x > 2:
         return "big"
@@ -66,7 +74,25 @@ def other(y):
 '''
 _TIMEOUT = 0.25
 _LOOPERS = {"spin": "var_0 = {m}.spin()", "nap_loop": "var_0 = {m}.nap_loop()", "long_nap": "var_0 = {m}.long_nap(0.9)",
-            "feed": "var_0 = {m}.Feed(0.9)", "slow_then_raise": "var_0 = {m}.slow_then_raise(0.9)"}
+            "feed": "var_0 = {m}.Feed(0.9)", "slow_then_raise": "var_0 = {m}.slow_then_raise(0.9)",
+            "slow_operand": "var_0 = {m}.compare_slow(0.9)"}
+_DEP = "c32_dependency"
+_DEP_SOURCE = '''
+import time
+
+
+class Slow:
+    """comparing it takes a while, in code that is not instrumented"""
+
+    def __init__(self, seconds):
+        self.seconds = seconds
+
+    def __eq__(self, other):
+        time.sleep(self.seconds)
+        return False
+
+    __hash__ = None
+'''
 _TERMINATING = {"classify": "var_0 = {m}.classify(3)", "other": "var_0 = {m}.other(1)"}
 
 
@@ -80,6 +106,7 @@ def _setup():
     from pynguin.testcase.execution import TestCaseExecutor
     workdir = Path(tempfile.mkdtemp(prefix="c32_"))
     (workdir / f"{_MODULE}.py").write_text(_SOURCE)
+    (workdir / f"{_DEP}.py").write_text(_DEP_SOURCE)
     sys.path.insert(0, str(workdir))
     config.configuration.module_name = _MODULE
     sp = SubjectProperties()
@@ -123,6 +150,18 @@ def _reference_overhead():
     return max(0.0, over)
 
 
+def execute_terminating(executor, make_test_case, overloaded_above=0.15):
+    """Execute a test case that terminates quickly.  On a loaded machine even such a test case may exceed a 0.25 s bound, which
+    is lawful behaviour and says nothing about the property: a time-out is retried (fresh test case, up to three attempts); if
+    it persists, the reference wait tells whether the machine is overloaded right now - then the case is inconclusive (None)."""
+    res = None
+    for _ in range(3):
+        res = executor.execute(make_test_case())
+        if not res.timeout:
+            return res
+    return None if _reference_overhead() > overloaded_above else res
+
+
 def _sig(res, sp):
     tr = res.execution_trace
     return (res.timeout, sorted((k, type(v).__name__) for k, v in res.exceptions.items()),
@@ -136,9 +175,17 @@ def _check_c32(part: Part, tier, seed):
     workdir, hook, executor, sp = _setup()
     try:
         # reference results of the terminating test cases on a quiet executor
-        ref = {k: _sig(executor.execute(_tc(v)), sp) for k, v in _TERMINATING.items()}
+        ref = {}
         for k, v in _TERMINATING.items():
-            again = _sig(executor.execute(_tc(v)), sp)
+            for _attempt in range(5):          # (a time-out of these test cases means: machine overloaded, wait and retry)
+                r_ = execute_terminating(executor, lambda v=v: _tc(v))
+                if r_ is not None and not r_.timeout:
+                    break
+                time.sleep(3)
+            ref[k] = _sig(r_, sp) if r_ is not None else None
+        for k, v in _TERMINATING.items():
+            r_ = execute_terminating(executor, lambda v=v: _tc(v))
+            again = _sig(r_, sp) if r_ is not None else ref[k]
             if again != ref[k]:
                 part.error(f"terminating test case {k} is not deterministic on a quiet executor: {again} vs {ref[k]}")
                 return
@@ -163,7 +210,9 @@ def _check_c32(part: Part, tier, seed):
         for (lk, lsrc), wait, (tk, tsrc) in itertools.product(_LOOPERS.items(), waits, _TERMINATING.items()):
             part.case()
             ra, elapsed, waits_asked = timed_execute(lsrc)
-            if not ra.timeout:
+            # (the over-long but finite test cases - 0.9 s - may lawfully run to completion when a loaded machine keeps the
+            #  executor from looking at its watch for that long; the statement is about test cases that do not terminate)
+            if not ra.timeout and (lk in ("spin", "nap_loop", "slow_operand") or elapsed < 0.85):
                 part.violation("a test case that does not terminate within the bound is reported as a timeout", f"no-timeout:{lk}",
                                {"test": lsrc, "elapsed_s": round(elapsed, 2)}, target=f"{EX}:TestCaseExecutor.execute")
             # (a) what execute() asks for, independent of the machine's load: it waits for its worker thread only with finite
@@ -174,7 +223,9 @@ def _check_c32(part: Part, tier, seed):
                                 "allowed_total_s": 2 * _TIMEOUT}, target=f"{EX}:TestCaseExecutor.execute")
             # (b) the wall clock, judged against a reference wait of the same shape taken at the same moment (on a loaded machine
             #     both stretch alike): late only if every one of three attempts is late
-            elif elapsed > 2 * _TIMEOUT + 1.0 + 3 * _reference_overhead():
+            elif elapsed > 2 * _TIMEOUT + 1.0 and elapsed > 2 * _TIMEOUT + 1.0 + 3 * _reference_overhead():
+                # (the reference wait is only taken when the execution looks late: it occupies the interpreter for half a
+                #  second, which would otherwise delay the next test case of every scenario)
                 attempts = [round(elapsed, 2)]
                 for _ in range(2):
                     for th in threading.enumerate():
@@ -192,18 +243,30 @@ def _check_c32(part: Part, tier, seed):
                 part.violation("a timed-out execution reports a fresh, empty result", f"timeout-result:{lk}",
                                {"test": lsrc, "result": repr(_sig(ra, sp))[:300]}, target=f"{EX}:TestCaseExecutor.execute")
             time.sleep(wait)         # the abandoned thread runs on (or has finished) while / before the next test case executes
-            rb = executor.execute(_tc(tsrc))
+            rb = execute_terminating(executor, lambda: _tc(tsrc))
+            if rb is None:
+                part.inconclusive = getattr(part, "inconclusive", 0) + 1     # overloaded machine: no verdict for this scenario
+                continue
             sig = _sig(rb, sp)
             if sig != ref[tk]:
                 part.violation("an abandoned execution never adds lines, branches or exceptions to the result of a later test case",
                                f"polluted:{lk}:wait={wait}",
                                {"abandoned": lsrc, "wait_before_next_s": wait, "next": tsrc, "result": repr(sig)[:400],
                                 "expected": repr(ref[tk])[:400]}, target=f"{EX}:TestCaseExecutor.execute")
-            # let the stragglers end before the next scenario so that scenarios do not interfere
+            # let the stragglers end before the next scenario so that scenarios do not interfere ...
             deadline = time.monotonic() + 3
             for th in threading.enumerate():
                 if th is not threading.current_thread() and th.daemon:
                     th.join(timeout=max(0.0, deadline - time.monotonic()))
+            # ... and look at the later test case's result once more: an abandoned thread that wakes up only now (it was
+            # blocked in uninstrumented code, possibly inside the tracer's own evaluation of an operand) must not write into it
+            settled = _sig(rb, sp)
+            if settled != sig:
+                part.violation("an abandoned execution never adds lines, branches or exceptions to the result of a later test case",
+                               f"polluted-after-return:{lk}:wait={wait}",
+                               {"abandoned": lsrc, "wait_before_next_s": wait, "next": tsrc, "result_when_returned": repr(sig)[:400],
+                                "same_result_object_after_the_abandoned_thread_ended": repr(settled)[:400]},
+                               target=f"{TR}:ExecutionTracer")
     finally:
         hook.__exit__(None, None, None)
         sys.modules.pop(_MODULE, None)
